@@ -135,7 +135,11 @@ impl<'a> SpecGen<'a> {
                 Some(_) if (self.names.len() + depth) % 5 == 4 => { self.feat("allof1_inline_primitive"); json!({"allOf": [{"type": "string", "format": "date"}]}) }
                 Some(x) => if (self.names.len() + depth) % 3 == 1 && self.is_object_ref(&x) { self.feat("allof_ref_plus_inline_properties"); json!({"allOf": [x, {"type": "object", "properties": {"zz_extra_note": {"type": "string"}}, "required": ["zz_extra_note"]}]}) } else { json!({"allOf": [x]}) },
                 None => json!({"type": "string"}) } }
-            13 => { self.feat("oneof"); json!({"oneOf": [{"type": "string"}, {"type": "integer"}]}) }
+            13 => { self.feat("oneof"); match (self.names.len() + depth) % 3 {
+                // a union with a single member is still a union (no draw from the random stream)
+                1 => { self.feat("oneof_single_member"); json!({"oneOf": [{"type": "string"}]}) }
+                2 => { self.feat("anyof_single_member"); json!({"anyOf": [{"type": "integer"}]}) }
+                _ => json!({"oneOf": [{"type": "string"}, {"type": "integer"}]}) } }
             14 => { self.feat("freeform"); json!({"type": "object"}) }
             _ => { self.feat("notype"); json!({}) }
         };
@@ -168,8 +172,16 @@ impl<'a> SpecGen<'a> {
         let mut props = Map::new();
         let mut required = vec![];
         for p in names {
-            let s = self.schema(depth);
-            if self.rng.chance(1, 2) { required.push(json!(p.clone())); }
+            let mut s = self.schema(depth);
+            let is_required = self.rng.chance(1, 2);
+            if is_required { required.push(json!(p.clone())); }
+            // a required member that also declares a `default:` stays required (decided without drawing from the
+            // generator's random stream, so that the documents of earlier runs are otherwise unchanged)
+            if is_required && (p.len() + props.len() + self.names.len() + depth) % 3 == 0 {
+                let plain = s.as_object().map_or(false, |m| m.len() == 1);
+                let d = match s.get("type").and_then(|t| t.as_str()) { Some("string") => Some(json!("USD")), Some("integer") => Some(json!(1)), Some("boolean") => Some(json!(true)), Some("number") => Some(json!(1.5)), _ => None };
+                if let (true, Some(d)) = (plain, d) { s["default"] = d; self.feat("required_member_with_default"); }
+            }
             props.insert(p, s);
         }
         let n_props = props.len();
@@ -467,6 +479,12 @@ impl<'a> SpecGen<'a> {
                     let req = self.rng.chance(1, 2);
                     let p = self.param(&n, "query", req);
                     item.entry("parameters").or_insert_with(|| json!([])).as_array_mut().unwrap().push(p);
+                    // … and, for some, one more shared parameter AFTER the one an operation may re-declare (so that the
+                    // merge has something left to do once it has met the overridden one); no draw from the random stream
+                    if (n.len() + op_idx + pps.len()) % 2 == 0 {
+                        item.get_mut("parameters").unwrap().as_array_mut().unwrap().push(json!({"name": "X-Shared-Tail", "in": "header", "required": false, "schema": {"type": "string"}}));
+                        self.feat("path_item_parameter_after_overridden_one");
+                    }
                     redeclare = Some((n, req));
                     self.feat("path_item_shared_query_parameter");
                 }
